@@ -92,18 +92,59 @@ def S(x):
     return z3.StringVal(x)
 
 
-def build(prog, ty, K):
-    m = StructMachine(prog, K=K)
+# vectors that need more than K elements before two different members of a set can each be repeated
+K_PATHS_ORDER = {"MT101": {"field_23e": 4}, "MT103": {"field_23e": 4}}
+
+
+def build(prog, ty, K, K_paths=None):
+    m = StructMachine(prog, K=K, K_paths=K_paths)
     inst = m.make(ty, ty)
     fn = prog.method(ty, "validate_network_rules")
-    out = {False: [], True: []}
+    out = {False: [], True: [], "sites": [], "stop": None}
     if fn is not None:
         stop = z3.Bool("stop_on_first_error")
         val, _ = m.call_fn(fn[0], [inst, stop], True, self_ty=ty)
         sites = error_codes(val)
         for flag in (False, True):
             out[flag] = [(z3.simplify(z3.substitute(B(g), (stop, z3.BoolVal(flag)))), c) for g, c in sites]
+        out["sites"] = error_sites(val)
+        out["stop"] = stop
     return m, inst, out
+
+
+def second_call(m, sites, stop, tag):
+    """The error sites of the same symbolic run taken as a separate call of validate_network_rules(false): every HashSet
+    iteration order is chosen afresh (std seeds each set's hasher separately)."""
+    fresh = [(v, z3.Int("%s@%s" % (v.decl().name(), tag))) for v in m.order_vars]
+    m.constraints += [z3.substitute(c, *fresh) for c in m.order_constraints]
+    sub1 = [(stop, z3.BoolVal(False))]
+    sub2 = sub1 + fresh
+    pairs = []
+    for g, fields in sites:
+        f1 = {k: (v if isinstance(v, str) else z3.substitute(v, *sub1)) for k, v in fields.items()}
+        f2 = {k: (v if isinstance(v, str) else z3.substitute(v, *sub2)) for k, v in fields.items()}
+        pairs.append((z3.substitute(B(g), *sub1), f1, z3.substitute(B(g), *sub2), f2))
+    return pairs
+
+
+def file_vocabulary(prog, ty):
+    lits = set()
+
+    def walk(v):
+        if isinstance(v, dict):
+            if v.get("k") == "lit" and isinstance(v.get("lit"), dict) and v["lit"].get("k") == "str":
+                t = v["lit"]["v"]
+                if len(t) <= 8 and " " not in t and "{" not in t:
+                    lits.add(t)
+            for x in v.values():
+                walk(x)
+        elif isinstance(v, list):
+            for x in v:
+                walk(x)
+    for f, a in prog.ast.items():
+        if f.endswith("/%s.rs" % ty.lower()):
+            walk(a)
+    return sorted(lits | {"", "ZZZA", "ZZZB", "ZZZC", "ZZZD"})
 
 
 def reported(codes, code):
@@ -179,8 +220,12 @@ def check_type(prog, ty, K, timeout_ms=120000):
             a, f = out["codes"], out["first"]
             if bool(a) != bool(f) or f != a[:len(f)]:
                 return "stop-on-first %s is not a non-empty-iff prefix of %s" % (f, a), None
+            if out.get("first_unstable"):
+                return "stop-on-first is not always a prefix of the full list (order varies between calls): %s" % out["first_unstable"], None
             if out.get("again") != a or not out.get("unchanged", True):
                 return "re-validation differs: %s vs %s" % (out.get("again"), a), None
+            if out.get("again_detail"):
+                return "re-validation returns different errors (same codes): %s" % out["again_detail"], None
             return None, None
         if extra and extra.get("mode") == "undocumented":
             bad = [c for c in out["codes"] if c not in exp]
@@ -200,6 +245,25 @@ def check_type(prog, ty, K, timeout_ms=120000):
         tried = 0
         while True:
             r = s.check()
+            if r == z3.unknown and tried == 0 and "vocab" not in rec:
+                # the string solver gave up on arbitrary strings: decide the query with every string leaf ranging over the
+                # literals of the type's own source file plus four fresh values (a stated, smaller bound)
+                vocab = file_vocabulary(prog, ty)
+                rec["vocab"] = len(vocab)
+                s = z3.Solver()
+                s.set("timeout", timeout_ms)
+                s.add(*m.constraints)
+                if mod is not None and hasattr(mod, "assumptions"):
+                    s.add(*[B(a) for a in mod.assumptions(I, z3, m)])
+                s.add(B(formula))
+                for path, kind, term in m.leaves:
+                    if kind == "str":
+                        s.add(z3.Or(*[term == z3.StringVal(v) for v in vocab]))
+                r = s.check()
+                if r == z3.unsat:
+                    rec["verdict"] = "unsat-bounded"
+                    rec["bound"] = "string components restricted to %d values (literals of the source file + 4 fresh); arbitrary strings: solver unknown" % len(vocab)
+                    break
             if r != z3.sat:
                 rec["verdict"] = str(r) if tried == 0 or r != z3.unsat else "unsat-after-%d-nonreproducing-models" % tried
                 break
@@ -280,7 +344,66 @@ def check_type(prog, ty, K, timeout_ms=120000):
             p2, c2 = nth(full, r)
             bad.append(And(p1, Or(Not(p2), c1 != c2)))
         solve("stop-on-first-is-prefix-of-full(first %d positions)" % R, Or(*bad), extra={"mode": "c13"})
+    if m.set_iterations:
+        # some HashSet is iterated where the order can matter: a second call (its own iteration orders) must construct the
+        # same error, with the same evaluable string fields, at every error site. (Site-wise equality implies equal lists.)
+        res.extend(order_query(prog, ty, K, timeout_ms, mod))
     return res
+
+
+def order_query(prog, ty, K, timeout_ms, mod):
+    from common import replay_batch
+    t0 = time.time()
+    kp = K_PATHS_ORDER.get(ty)
+    m, inst, out = build(prog, ty, K, K_paths=kp)
+    pairs = second_call(m, out["sites"], out["stop"], "again")
+    bad = []
+    for g1, f1, g2, f2 in pairs:
+        diff = [f1[k] != f2[k] for k in f1 if not (isinstance(f1[k], str) and isinstance(f2[k], str))]
+        bad.append(Or(g1 != g2, And(g1, Or(*diff)) if diff else False))
+    name = "re-validation-constructs-the-same-errors(%d sites; %d hash-order choices%s)" % (
+        len(pairs), len(m.order_vars), "; vector bounds %s" % kp if kp else "")
+    rec = {"type": ty, "query": name, "K": K, "build_s": round(time.time() - t0, 2)}
+    s = z3.Solver()
+    s.set("timeout", timeout_ms)
+    s.add(*m.constraints)
+    I = Inst(inst)
+    if mod is not None and hasattr(mod, "assumptions"):
+        s.add(*[B(a) for a in mod.assumptions(I, z3, m)])
+    s.add(B(Or(*bad)))
+    t1 = time.time()
+    tried = 0
+    while True:
+        r = s.check()
+        if r != z3.sat:
+            rec["verdict"] = str(r) if tried == 0 or r != z3.unsat else "unsat-after-%d-nonreproducing-models" % tried
+            break
+        model = s.model()
+        tried += 1
+        _, js = structsym.to_json(prog, model, inst)
+        o = replay_batch([{"op": "validate_json", "type": ty, "json": js}], "dev")[0]
+        why = None
+        if o.get("ok"):
+            if o.get("again") != o.get("codes"):
+                why = "re-validation differs: %s vs %s" % (o.get("again"), o.get("codes"))
+            elif o.get("again_detail"):
+                why = "re-validation returns different errors for the same message (same codes): %s" % json.dumps(o["again_detail"])[:600]
+            elif o.get("first_unstable"):
+                why = "stop-on-first is not always a prefix of the full list: %s" % o["first_unstable"]
+        if why:
+            rec["verdict"] = "sat"
+            rec["witness"] = {"type": ty, "json": js, "shape": concretise(m, model), "extra": {"mode": "c13"}, "why": why,
+                              "real": {k: o.get(k) for k in ("codes", "again", "again_detail")}}
+            break
+        if tried >= 4:
+            rec["verdict"] = "sat-not-reproduced"
+            rec["detail"] = "48 repeated real validations of the model's message all returned identical errors"
+            break
+        blk = [term != model.eval(term, model_completion=True) for path, kind, term in m.leaves
+               if kind in ("present", "bool", "len", "int") or kind.startswith("variant:")]
+        s.add(z3.Or(*blk) if blk else False)
+    rec["time_s"] = round(time.time() - t1, 2)
+    return [rec]
 
 
 # per-type bound overrides (stated in evidence): MT935's field-23 rules rebuild strings; K = 2 is not decided for T26
